@@ -26,6 +26,23 @@ CHECKS = {
             "Sod's states are taken as the library documents them in sod.cpp (rho 1 / 0.125, p 1 / 0.125)."),
     "C20": ("runtime monitor, reference-free: two handles in one process, shared parameters copied, specialising parameters zeroed and verified, sources of the two solutions compared (oracle supplies only the roundoff scale)",
             "Exploration: 19 reductions (3D->2D, NS->Euler, transient->steady, unsteady->steady heat, variable->constant properties) x 2 precisions x random parameters/points.", "2/C20", ""),
+    "C10": ("runtime monitor over recorded histories: evaluator-call log keyed by (handle, parameter version, evaluator, arguments) checked for bit-identical repeats; fresh twin handle must reproduce logged bits; full parameter snapshot compared with the sequential model after every evaluator call",
+            "Exploration: long random histories (both error-handling builds, both precisions) over every catalogue entry, weighted to the stateful ones (wall-bounded FANS-SA, Sod, cp_normal); half of all evaluator calls are repeats after arbitrary other operations.", "2/C10", ""),
+    "C11": ("runtime monitor: sequential reference map per handle compared step by step (get == model bitwise; whole snapshot after every mutator; unknown names; init_param/purge/sanity/display/vectors) + systematic sweep over every name of every solution",
+            "Exploration: random op sequences on 35 solutions x 2 precisions x 2 builds, plus the exhaustive-over-names sweep (803 names per precision, incl. all 205 power-law parameters).", "2/C11", ""),
+    "C12": ("runtime monitor: bounded-exhaustive enumeration of all op sequences (length <= 4 quick / <= 6 thorough) over a 12-symbol alphabet, each in a forked child from the empty registry, plus long random histories over 6 handles x 2 precisions; every step compared with the model (listing, name, dimension, selection hook, parameter isolation)",
+            "Exploration with an exhaustive bounded part: 7,540 (quick) / 1.09 M (thorough) sequences enumerated completely; random part covers re-initialisation, two handles of one type, cross-precision independence.", "2/C12", ""),
+    "C14": ("runtime monitor, complete enumeration: every name masa_printid lists in both precisions initialised and checked against spec/catalogue.txt (name echo, sanity, init_param, dimension, every documented evaluator finite and non-sentinel at 16 interior points)",
+            "Exhaustive over the finite catalogue of the build under test (37 entries x 2 precisions x 2 builds).", "2/C14", "An entry unknown to the spec makes the run inconclusive, not green."),
+    "C15": ("runtime monitor, complete enumeration: every (solution, overload, precision) triple outside the documented capability set called at 4 random argument tuples; sentinel bits, error line, parameter snapshot, registry and process survival checked",
+            "Exhaustive over the finite (solution x 117 overloads x 2 precisions) space: 8,208 unprovided triples.", "2/C15", ""),
+    "C16": ("runtime monitor: every solution-dependent API function on an empty registry (exit status of forked child in the exit() build, thrown int in the exceptions build) + failing calls injected into random histories with full state comparison against the model afterwards",
+            "Exploration: 132 functions x 2 precisions x 2 builds pre-init; >1000 mid-session failures per run with registry/selection/parameters compared and the history continued.", "2/C16", ""),
+    "C17": ("runtime monitor: C and C++ calls interleaved on the same handles of random histories; every extern C wrapper compared bit for bit with the C++ <double> overload its name stands for; statuses compared in states where the C++ status is non-zero; nm cross-check of the wrapper table",
+            "Exploration: all 80 evaluator wrappers + 14 core entry points, thousands of comparisons per run, both builds.", "2/C17", ""),
+    "C19": ("sanitizers as oracle: ASan+UBSan+LSan builds (reports fatal) and valgrind memcheck over hostile API histories; conservation monitor on the MASA_VERIF hook (live objects == registered handles) after every operation; allocator counters for heap growth under repeated masa_init",
+            "Exploration: 2x36x36 ordered init pairs, 3 random init orders on a dirtied heap, vector length changes, C arrays n=0..40 in exact-size buffers, uninitialised name buffer, extreme arguments/indices, and the C10-C17 workloads again under the tools.", "2/C19",
+            "A clean run is 'no report on these histories', not memory safety."),
     "C13": ("runtime monitor: random decorated/near-miss name strings vs independent normaliser; throw observed in-process (exceptions build) and exit status of forked child (exit() build); registry compared before/after",
             "Exploration: thousands of generated strings per run (valid decorations incl. adjacent/leading/trailing separator runs; 9 kinds of near-miss), both precisions, both error-handling builds; oracle is a 3-line normaliser.",
             "2/C13", ""),
